@@ -236,6 +236,27 @@ def mpc_loop(env):
     env.holds('exit_only_when_not_continual', not ctrl.continual())
 
 
+@obligation('C20.drivers.default_controller', functions=['pypose.module.mpc:MPC.__init__', 'pypose.module.icp:ICP.__init__'], max_paths=8)
+def default_ctrl(env):
+    """every driver object owns its stopping controller: drivers built without an explicit stepper get a FRESH controller with the documented
+    budget each (MPC: 10 steps, of which 9 are loop iterations), so constructing or running one driver never changes another one's budget"""
+    mpc = env.load('pypose.module.mpc'); icp = env.load('pypose.module.icp'); stp = env.load(STP); T = env.T
+    class Sys:        # LQR only stores the system at construction
+        pass
+    Qm = T.eye(2).reshape(1, 2, 2) if env.sym else T.eye(2).reshape(1, 2, 2)
+    pv = T.zeros(1, 2)
+    ms = [mpc.MPC(Sys(), Qm, pv, 2) for _ in range(3)]
+    env.holds('MPC: three drivers, three distinct default controllers', len({id(m.stepper) for m in ms}) == 3)
+    for i, m in enumerate(ms):
+        env.holds(f'MPC #{i + 1}: default budget is 10 steps minus the final differentiable pass', int(m.stepper.max_steps) == 9)
+    own = stp.ReduceToBason(steps=5)
+    m2 = mpc.MPC(Sys(), Qm, pv, 2, stepper=own)
+    env.holds('MPC: an explicit stepper is the one used', m2.stepper is own and int(own.max_steps) == 4)
+    ics = [icp.ICP() for _ in range(3)]
+    env.holds('ICP: three drivers, three distinct default controllers', len({id(c.stepper) for c in ics}) == 3)
+    env.holds('ICP: equal default budgets', len({int(c.stepper.max_steps) for c in ics}) == 1)
+
+
 @obligation('C20.ICP.forward.loop', functions=['pypose.module.icp:ICP.forward'], max_paths=64,
             loops={'pypose.module.icp': {('ICP.forward', 0): 'ICP.forward'}})
 def icp_loop(env):
